@@ -999,7 +999,10 @@ fn main() {
     let parse = |rel: &str| std::fs::read_to_string(format!("{}/{}", repo, rel)).ok().and_then(|t| syn::parse_file(&t).ok());
     let kernel = ["zipper_merge", "update", "permute", "permute_and_update", "modular_reduction", "rotate_32_by", "update_remainder", "_mm_slli_si128_8", "_mm_mul_epu32", "_mm_srli_epi64", "_mm_srl_epi32", "_mm_sll_epi32"];
     if let (Some(a), Some(b)) = (parse("src/x86/sse.rs"), parse("src/x86/v2x64u.rs")) {
-        let v = veclite::translate(&[("src/x86/sse.rs", &a), ("src/x86/v2x64u.rs", &b)], "SseHash", "V2x64U", &kernel, "src_sse");
+        // for SSE also the three finalize functions (their `if` / `for` / store-through-pointer shapes are in the fragment)
+        let mut kernel_sse = kernel.to_vec();
+        kernel_sse.extend(["finalize64", "finalize128", "finalize256"]);
+        let v = veclite::translate(&[("src/x86/sse.rs", &a), ("src/x86/v2x64u.rs", &b)], "SseHash", "V2x64U", &kernel_sse, "src_sse");
         write_if_changed(&format!("{}/SrcSse.v", out_dir), &v);
     }
     if let (Some(a), Some(b)) = (parse("src/x86/avx.rs"), parse("src/x86/v4x64u.rs")) {
